@@ -16,8 +16,8 @@ from koala.flux_finder.flux_finder import fluxes_from_ujk
 from koala.graph_utils import adjacent_plaquettes, vertex_neighbours
 
 DRIVERS = ("c11",)
-MODEL_TARGETS = ["Model/AStar.vo", "Model/Metric.vo"]
-TARGETS = ["Proofs/AStarFacts.vo"]
+MODEL_TARGETS = ["Model/AStar.vo", "Model/Metric.vo", "Model/FluxSolver.vo"]
+TARGETS = ["Proofs/AStarFacts.vo", "Proofs/MetricFacts.vo", "Proofs/ChainFlipFacts.vo"]
 LEVEL = "proof"
 TRUST = [
     "hand-written Gallina model coq/Model/AStar.v of pathfinding.py a_star_search_forward_pass / a_star_search_backward_pass "
